@@ -25,13 +25,29 @@ def _key(place):
     return [m.group(0)] if m else []
 
 
+def _aggregate_parts(rv):
+    """Operands of a tuple `(a, b)` or struct/variant aggregate `Path { f: a, g: b }` rvalue, in field order; None if not an aggregate."""
+    rv = rv.strip()
+    m = re.match(r"^\((.*)\)$", rv)
+    if m and not re.match(r"^\(_\d+\.\d+: ", rv) and not rv.startswith("(*") and not rv.startswith("((") and " as " not in rv.split(",")[0]:
+        return mir.split_top(m.group(1))
+    m = re.match(r"^[A-Za-z_][\w:<>&', ]*? \{ (.*) \}$", rv)
+    if m:
+        parts = []
+        for p in mir.split_top(m.group(1)):
+            parts.append(p.split(": ", 1)[1] if ": " in p else p)
+        return parts
+    return None
+
+
 class Flow:
-    def __init__(self, fn, call_rules, const_rules, unknown_tag=0):
+    def __init__(self, fn, call_rules, const_rules, unknown_tag=0, extra_cells=()):
         """call_rules: [(regex on the full callee text, 'tag:<n>' | 'arg:<i>' | 'free')]; const_rules: [(regex on rvalue, n)]."""
         self.fn, self.call_rules, self.const_rules = fn, call_rules, const_rules
         self.free = {}      # name -> declaration
         self.notes = []     # what each free variable stands for
         self.unknown_tag = unknown_tag
+        self.extra_cells = list(extra_cells)
 
     def fresh(self, name, what):
         name = re.sub(r"[^A-Za-z0-9_]", "_", name)
@@ -50,8 +66,9 @@ class Flow:
         if rv == "const false":
             return str(FALSE)
         for rx, n in self.const_rules:
-            if re.search(rx, rv):
-                return str(n)
+            mm = re.search(rx, rv)
+            if mm:
+                return n(mm, env) if callable(n) else str(n)
         m = re.match(r"^discriminant\((.*)\)$", rv)
         if m:
             return self.disc_var(m.group(1))
@@ -88,16 +105,35 @@ class Flow:
                 m = re.match(r"^(_\d+) = (.*)$", s)
                 if m:
                     cells.add(m.group(1))
-                    agg = re.match(r"^\((.*)\)$", m.group(2))
-                    if agg and not re.match(r"^\(_\d+\.\d+: ", m.group(2)) and not m.group(2).startswith("(*") and " as " not in m.group(2).split(",")[0]:
-                        for i, _ in enumerate(mir.split_top(agg.group(1))):
+                    parts = _aggregate_parts(m.group(2))
+                    if parts:
+                        for i, _ in enumerate(parts):
                             cells.add(f"{m.group(1)}.{i}")
+        changed = True
+        while changed:  # fields travel with whole-local moves: `_a = move _b`, `_0 = Result::Ok(move _b)`
+            changed = False
+            for b in order:
+                for s in fn.blocks[b].stmts:
+                    m = re.match(r"^(_\d+) = (?:.*::(?:Ok|Some)\()?(?:copy|move) (_\d+)\)?$", s)
+                    if m:
+                        for c in list(cells):
+                            if c.startswith(m.group(2) + ".") and (m.group(1) + c[len(m.group(2)):]) not in cells:
+                                cells.add(m.group(1) + c[len(m.group(2)):])
+                                changed = True
+        cells.update(self.extra_cells)
+        for rx, act in self.call_rules:
+            for a_ in ([] if callable(act) else act.split(";")):
+                if a_.startswith("record:"):
+                    for i in range(int(a_.split(":")[2])):
+                        cells.add(f"@{a_.split(':')[1]}.{i}")
+                elif a_.startswith("count:"):
+                    cells.add(f"@{a_.split(':')[1]}")
         cells = sorted(cells)
-        cv = lambda c, b: "c" + c.replace(".", "f") + "_" + b
+        cv = lambda c, b: "c" + c.replace(".", "f").replace("@", "R") + "_" + b
         decls = [f"(declare-const on_{b} Bool)" for b in order] + [f"(declare-const {cv(c, b)} Int)" for c in cells for b in order]
         evar = {e: f"e{i}" for i, e in enumerate(es)}
         decls += [f"(declare-const {v} Bool)" for v in evar.values()]
-        asserts = ["on_bb0"]
+        asserts = ["on_bb0"] + [f"(= {cv(c, 'bb0')} 0)" for c in cells if c.startswith("@")]
         exit_env, edge_cond = {}, {}
         for b in order:
             blk = fn.blocks[b]
@@ -107,25 +143,43 @@ class Flow:
                 if not m:
                     continue
                 lhs, rv = m.groups()
-                agg = re.match(r"^\((.*)\)$", rv)
-                if agg and f"{lhs}.0" in env and not re.match(r"^\(_\d+\.\d+: ", rv) and not rv.startswith("(*") and " as " not in rv.split(",")[0]:
-                    for i, part in enumerate(mir.split_top(agg.group(1))):
+                parts = _aggregate_parts(rv)
+                if parts and f"{lhs}.0" in env and not any(re.search(rx, rv) for rx, _ in self.const_rules):
+                    for i, part in enumerate(parts):
                         t = self.rvalue(part, env, b)
                         env[f"{lhs}.{i}"] = t if t is not None else self.fresh(f"u_{b}_{lhs}_{i}", f"unknown value {part} in {b}")
                     env[lhs] = str(self.unknown_tag)
                     continue
                 t = self.rvalue(rv, env, b)
                 env[lhs] = t if t is not None else self.fresh(f"u_{b}{lhs}", f"unknown rvalue `{rv[:60]}` in {b}")
-                for c in cells:  # a whole-local assignment supersedes stale field cells
+                msrc = re.match(r"^(?:.*::(?:Ok|Some)\()?(?:copy|move) (_\d+)\)?$", rv)
+                for c in cells:  # a whole-local assignment supersedes stale field cells (fields travel with a whole-local move)
                     if c.startswith(lhs + "."):
-                        env[c] = env[lhs]
+                        src_c = (msrc.group(1) + c[len(lhs):]) if msrc else None
+                        env[c] = env[src_c] if src_c in env else env[lhs]
             term = blk.term or ""
             c = mir.call_of(term)
             if c:
                 dest, callee, args = c
                 val = None
-                for rx, act in self.call_rules:
-                    if re.search(rx, callee):
+                for rx, acts in self.call_rules:
+                    if not re.search(rx, callee):
+                        continue
+                    if callable(acts):
+                        val = acts(callee, args, env, b, self)
+                        break
+                    for act in acts.split(";"):
+                        if act.startswith("record:"):
+                            _, nm, cnt = act.split(":")
+                            al = mir.split_top(args) if args.strip() else []
+                            for i in range(int(cnt)):
+                                t_ = self.rvalue(al[i], env, b) if i < len(al) else None
+                                env[f"@{nm}.{i}"] = t_ if t_ is not None else self.fresh(f"u_{b}_{nm}_{i}", f"unknown argument {i} of {callee[:50]} in {b}")
+                            continue
+                        if act.startswith("count:"):
+                            nm = act.split(":")[1]
+                            env[f"@{nm}"] = f"(+ {env['@' + nm]} 1)"
+                            continue
                         if act.startswith("tag:"):
                             val = act[4:]
                         elif act.startswith("arg:"):
@@ -149,7 +203,7 @@ class Flow:
                                     val = f"(ite (= {dv} {i_}) {tbl[i_]} {val})"
                         elif act == "free":
                             val = self.fresh(f"r_{b}", f"result of {callee[:70]} in {b}")
-                        break
+                    break
                 if val is None:
                     val = self.fresh(f"r_{b}", f"result of {callee[:70]} in {b}")
                 mm = re.match(r"^(_\d+)$", (dest or "").strip())
